@@ -7,6 +7,7 @@ import (
 	"sort"
 	"strings"
 	"sync"
+	"time"
 
 	connect "github.com/bufbuild/connect-go"
 	"google.golang.org/protobuf/proto"
@@ -122,7 +123,7 @@ func c12CodecSets() []c12CodecSet {
 }
 
 func c12(run *ev.Run) int {
-	run.SetRule("cases = HTTP methods (standard, lower-case, empty, odd tokens) x versions 1.0/1.1/2.0/3.0 x content types (every advertised one, case variants, parameters, blanks, bare prefixes, the other kind's prefix, unregistered codecs, random) x 5 registered codec sets x 4 kinds through Handler.ServeHTTP with a recording ResponseWriter, plus client calls through base URLs with path prefixes/trailing slashes; oracle = dispatch model (405+Allow, 505, 415+Accept-Post == reference set, advertised == accepted, user-code and interceptor hook counters 0 or exactly 1, Spec equality); distinct by (codec set, kind, method class, version, content-type class)")
+	run.SetRule("cases = HTTP methods (standard, lower-case, empty, odd tokens) x versions 1.0/1.1/2.0/3.0 x content types (every advertised one, case variants, parameters, blanks, bare prefixes, the other kind's prefix, unregistered codecs, random) x 5 registered codec sets x 4 kinds through Handler.ServeHTTP with a recording ResponseWriter, plus client calls through base URLs with path prefixes/trailing slashes, plus rejected requests whose body stays open until the handler answers; oracle = dispatch model (405+Allow, 505, 415+Accept-Post == reference set, advertised == accepted, user-code and interceptor hook counters 0 or exactly 1, Spec equality); distinct by (codec set, kind, method class, version, content-type class)")
 	sets := c12CodecSets()
 	methods := []string{"POST", "GET", "PUT", "DELETE", "HEAD", "OPTIONS", "PATCH", "CONNECT", "TRACE", "post", "Post", "", "POSTX", "BREW"}
 	versions := []int{10, 1, 2, 3}
@@ -143,7 +144,7 @@ func c12(run *ev.Run) int {
 		// a read limit keeps mis-dispatched bodies (read as lying envelopes) cheap
 		// several interceptor-carrying options, shared by the four handlers the way a
 		// generated service constructor shares them between its procedures
-		hs := svc.Handlers(reg, append(append([]connect.HandlerOption{}, j.set.hopts...), connect.WithInterceptors(noopIcept{}), connect.WithInterceptors(rec), connect.WithInterceptors(noopIcept{}), connect.WithReadMaxBytes(1<<20))...)
+		hs := svc.Handlers(reg, append(append([]connect.HandlerOption{}, j.set.hopts...), connect.WithInterceptors(rec), connect.WithInterceptors(noopIcept{}), connect.WithInterceptors(noopIcept{}), connect.WithReadMaxBytes(1<<20))...)
 		h := hs[j.kind]
 		streaming := j.kind != svc.Unary
 		accepted := refcodec.AcceptedContentTypes(streaming, j.set.names)
@@ -197,7 +198,8 @@ func c12(run *ev.Run) int {
 		}
 	})
 	c12ClientSpecs(run)
-	return run.Finish("dispatch.requests", "rejections.405", "rejections.505", "rejections.415", "accept_post.checked", "served.once", "client.spec.calls")
+	c12OpenBody(run)
+	return run.Finish("dispatch.requests", "rejections.405", "rejections.505", "rejections.415", "accept_post.checked", "served.once", "client.spec.calls", "open_body.rejections")
 }
 
 func c12Body(ct string, kind svc.Kind) []byte {
@@ -331,7 +333,7 @@ func c12ClientSpecs(run *ev.Run) {
 						}
 						hrec, crec := newSpecRecorder(), newSpecRecorder()
 						reg := svc.NewRegistry()
-						hs := svc.Handlers(reg, append(append([]connect.HandlerOption{}, set.hopts...), connect.WithInterceptors(noopIcept{}), connect.WithInterceptors(hrec), connect.WithInterceptors(noopIcept{}), connect.WithReadMaxBytes(1<<20))...)
+						hs := svc.Handlers(reg, append(append([]connect.HandlerOption{}, set.hopts...), connect.WithInterceptors(hrec), connect.WithInterceptors(noopIcept{}), connect.WithInterceptors(noopIcept{}), connect.WithReadMaxBytes(1<<20))...)
 						lb := &wire.Loopback{Handler: hs[kind]}
 						opts := svc.ProtoOpts(protocol, "proto")
 						switch codec {
@@ -341,7 +343,7 @@ func c12ClientSpecs(run *ev.Run) {
 						default:
 							opts = append(opts, connect.WithCodec(namedCodec{codec}))
 						}
-						opts = append(opts, connect.WithInterceptors(noopIcept{}), connect.WithInterceptors(crec), connect.WithInterceptors(noopIcept{}))
+						opts = append(opts, connect.WithInterceptors(crec), connect.WithInterceptors(noopIcept{}), connect.WithInterceptors(noopIcept{}))
 						cs := svc.NewClientSet(lb, base, opts...)
 						call := reg.New("c12s", &svc.Program{Steps: []svc.Step{{Op: "recvall"}, {Op: "sendsum"}}})
 						cl := cs.Do(context.Background(), kind, call.ID, nil, []*gen.Msg{{Id: 1}})
@@ -381,4 +383,78 @@ func codecClass(c string) string {
 		return c
 	}
 	return "custom"
+}
+
+// c12OpenBody: requests that are rejected at dispatch (wrong method, content
+// type nobody serves, bidi over HTTP/1.1) arrive with a request body whose
+// sender has not finished. The 405 / 415 / 505 must not wait for it to end.
+func c12OpenBody(run *ev.Run) {
+	type rej struct {
+		name   string
+		method string
+		ct     string
+		proto  int
+		status int
+		kind   svc.Kind
+	}
+	var rejs []rej
+	for _, k := range svc.Kinds {
+		rejs = append(rejs,
+			rej{"GET", "GET", "application/grpc", 2, 405, k},
+			rej{"PUT-json", "PUT", "application/json", 2, 405, k},
+			rej{"unserved-content-type", "POST", "application/x-thrift", 2, 415, k},
+			rej{"empty-content-type", "POST", "", 2, 415, k})
+	}
+	rejs = append(rejs, rej{"bidi-over-http1", "POST", "application/grpc", 1, 505, svc.Bidi})
+	for _, rj := range rejs {
+		key := fmt.Sprintf("c12/open-body/%s/%s", rj.kind, rj.name)
+		if !run.Want(key) {
+			continue
+		}
+		rec := newSpecRecorder()
+		reg := svc.NewRegistry()
+		hs := svc.Handlers(reg, connect.WithInterceptors(rec), connect.WithReadMaxBytes(1<<20))
+		call := reg.New("ob", &svc.Program{Steps: []svc.Step{{Op: "recvall"}}})
+		hdr := http.Header{}
+		if rj.ct != "" {
+			hdr.Set("Content-Type", rj.ct)
+		}
+		hdr.Set(wire.CallHeader, call.ID)
+		body := wire.NewOpenBody([]byte{0, 0, 0, 0, 2, 0x08, 0x01})
+		rw := wire.NewRecorder()
+		req := wire.ServerRequest(context.Background(), rj.method, rj.kind.Path(), hdr, body, rj.proto)
+		var panicked any
+		done := make(chan struct{})
+		go func() {
+			defer close(done)
+			defer func() { panicked = recover() }()
+			hs[rj.kind].ServeHTTP(rw, req)
+		}()
+		answered := true
+		select {
+		case <-done:
+		case <-time.After(5 * time.Second):
+			if confirmHang(done) {
+				answered = false
+			}
+		}
+		body.Release()
+		<-done
+		run.Count("open_body.rejections", 1)
+		run.Eval(fmt.Sprintf("open-body|%s|%s", rj.kind, rj.name))
+		detail := map[string]any{"kind": rj.kind.String(), "rejection": rj.name}
+		switch {
+		case panicked != nil:
+			run.Violation(key+"/panic", fmt.Sprintf("ServeHTTP panicked: %v", panicked), detail)
+		case !answered:
+			run.Violation(key+"/waits-for-body", fmt.Sprintf("the handler did not answer %d while the sender's request body was still open; it only returned once the body was ended", rj.status), detail)
+		default:
+			res := rw.Finish()
+			n, _ := rec.get(call.ID)
+			if res.Status != rj.status || call.Log.Invocations != 0 || n != 0 {
+				detail["status"] = res.Status
+				run.Violation(key+"/not-rejected", fmt.Sprintf("want a bare %d without user code or interceptors, got %d (user code %d, hooks %d)", rj.status, res.Status, call.Log.Invocations, n), detail)
+			}
+		}
+	}
 }
